@@ -47,10 +47,10 @@ def gen_dir():
     return d
 
 _tree_hash = None
-def tree_hash():
-    """hash of every file under /repo/src and /repo/include (the inputs of every lowering)"""
+def tree_hash(fresh=False):
+    """hash of every file under /repo/src and /repo/include (the inputs of every lowering); fresh=True re-reads the tree (used around every build so that a tree that changes during a run can never be cached under the wrong key)"""
     global _tree_hash
-    if _tree_hash is None:
+    if _tree_hash is None or fresh:
         h = hashlib.sha256()
         for root in ('src', 'include'):
             for dp, dn, fn in sorted(os.walk(os.path.join(REPO, root))):
@@ -85,7 +85,8 @@ def lower(srcs, harness, keep, opt='-O1', extra=(), exceptions=False):
     os.makedirs(CACHE, exist_ok=True)
     gd = gen_dir()
     hsrc = open(harness).read() if harness else ''
-    key = _key('lower', tree_hash(), srcs, hsrc, keep, opt, extra, exceptions, CLANG_FLAGS, PER_FILE_FLAGS)
+    th = tree_hash(fresh=True)
+    key = _key('lower', th, srcs, hsrc, keep, opt, extra, exceptions, CLANG_FLAGS, PER_FILE_FLAGS)
     out = os.path.join(CACHE, key + '.ll')
     info = {'clang': 'clang++-14 ' + opt + ' ' + ' '.join(CLANG_FLAGS), 'sources': list(srcs), 'harness': harness and os.path.basename(harness),
             'tree_hash': tree_hash()[:16], 'cached': os.path.exists(out)}
@@ -116,6 +117,7 @@ def lower(srcs, harness, keep, opt='-O1', extra=(), exceptions=False):
         linked = os.path.join(tmp, 'linked.bc')
         _sh(['llvm-link-14'] + lls + ['-o', linked])
         _sh(['opt-14', '-passes=internalize,globaldce', '-internalize-public-api-list=' + ','.join(keep), linked, '-S', '-o', out + '.tmp'])
+        if tree_hash(fresh=True) != th: raise RuntimeError('the source tree changed while it was being lowered: nothing cached, run again')
         os.rename(out + '.tmp', out)
     finally:
         shutil.rmtree(tmp, ignore_errors=True)
@@ -128,7 +130,8 @@ def native_so(srcs, harness, extra=()):
     os.makedirs(CACHE, exist_ok=True)
     gd = gen_dir()
     hsrc = open(harness).read()
-    key = _key('native', tree_hash(), srcs, hsrc, extra)
+    th = tree_hash(fresh=True)
+    key = _key('native', th, srcs, hsrc, extra)
     out = os.path.join(CACHE, key + '.so')
     if os.path.exists(out):
         os.utime(out)
@@ -150,6 +153,7 @@ def native_so(srcs, harness, extra=()):
                 sys.stderr.write('COMMAND FAILED: %s\n%s\n' % (' '.join(cmd), so[-6000:]))
                 raise RuntimeError('native build failed')
         _sh(['g++', '-shared', '-o', out + '.tmp'] + objs + ['-lconfig++'])
+        if tree_hash(fresh=True) != th: raise RuntimeError('the source tree changed while the native replay library was being built: nothing cached, run again')
         os.rename(out + '.tmp', out)
     finally:
         shutil.rmtree(tmp, ignore_errors=True)
